@@ -354,6 +354,11 @@ type recorder struct {
 	stall  *stallCtl
 	jitter int
 	mark   string // "[<tag>-w": prefix of every chunk of the work
+	// lazyHdr (Flusher variants of ext_test.go): the header map is not read at the commit point but only
+	// after all parties were joined. go-zero's Flush writes into this map without any lock; the harness
+	// reading it concurrently would turn that defect into a fatal "concurrent map iteration and map write"
+	// of the whole child process (as net/http's WriteHeader, which clones the map, does in production).
+	lazyHdr bool
 	pushes int
 	hijack int
 }
@@ -371,7 +376,9 @@ func (r *recorder) commitLocked(code int) {
 	if !r.wrote {
 		r.wrote = true
 		r.status = code
-		r.sent = r.hdr.Clone()
+		if !r.lazyHdr {
+			r.sent = r.hdr.Clone()
+		}
 	}
 }
 
@@ -460,6 +467,9 @@ type recState struct {
 func (r *recorder) snapshot() recState {
 	r.mu.Lock()
 	defer r.mu.Unlock()
+	if r.lazyHdr && r.wrote {
+		r.sent = r.hdr.Clone()
+	}
 	return recState{Wrote: r.wrote, Status: r.status, Sent: r.sent.Clone(), Body: r.body.String(),
 		Calls: append([]recCall(nil), r.calls...), Live: r.hdr.Clone()}
 }
